@@ -4,7 +4,7 @@
    sender handle is alive, and a sender handle that exists keeps it positive), through every clone and drop at
    any moment.  Not proved: that the stream is drained when the end is reported (needs the slot/tag invariant). *)
 From Coq Require Import NArith List Bool.
-Require Import MQ.Arith64 MQ.Arith64Facts MQ.Types MQ.State MQ.Model MQ.Exec MQ.Reach MQ.Ctl MQ.Count MQ.WritersStep MQ.InvWriters.
+Require Import MQ.Arith64 MQ.Arith64Facts MQ.Types MQ.State MQ.Model MQ.Exec MQ.Reach MQ.Ctl MQ.Count MQ.WritersStep MQ.InvWriters MQ.InvMisc.
 Open Scope N_scope.
 
 Theorem C07_writers_counts_live_senders : forall c fut s,
@@ -23,6 +23,15 @@ Qed.
 Check C07_live_sender_keeps_it_positive : forall c fut s a A,
   reach c fut s -> lenN (ags s) < B62 -> get (ags s) a = Some A -> cs a A = true -> 1 <= writers (sh s).
 Print Assumptions C07_live_sender_keeps_it_positive.
+
+Theorem C07_zero_is_final : forall c fut s a A o,
+  reach c fut s -> lenN (ags s) < B62 -> get (ags s) a = Some A ->
+  micro c a A (sh s) = Some o -> writers (sh s) = 0 -> writers (o_s o) = 0.
+Proof. intros c fut s a A o R. apply (writers_zero_stable c fut). now apply reach_mreach. Qed.
+Check C07_zero_is_final : forall c fut s a A o,
+  reach c fut s -> lenN (ags s) < B62 -> get (ags s) a = Some A ->
+  micro c a A (sh s) = Some o -> writers (sh s) = 0 -> writers (o_s o) = 0.
+Print Assumptions C07_zero_is_final.
 
 Example C07_witness :
   let c := mk_cfg MPMC 2 WBusy in
